@@ -768,6 +768,11 @@ func runC04(r *Rand, tier string, o *Out) {
 		}
 		o.Count("scenario:handler-slots-of-a-shared-client")
 	}
+	// a full mailbox, two more connections waiting to queue, and the object adds a child to its service
+	if out := o.Do("P", "sv.spawnfull", true); out != "ok" {
+		o.Fail("a full mailbox while the object adds a child: "+strings.SplitN(strings.TrimPrefix(out, "fail:"), " ", 2)[0], "sv.spawnfull => "+out)
+	}
+	o.Count("scenario:full-mailbox-and-a-child-added")
 	// calls the server forwards to an object hosted by a client, which answers late and in its own order
 	lends := [][4]int{{1, 6, 1, 1}, {4, 6, 1, 4}, {8, 5, 2, 3}, {6, 8, 3, 16}}
 	if tier == "thorough" {
